@@ -35,6 +35,7 @@ func main() {
 	extra := flag.String("extra", "", "json file with extra coverage keys (aggregate)")
 	config := flag.String("config", "", "build configuration (extra tags) this binary was built with")
 	nconfigs := flag.Int("nconfigs", 0, "number of build configurations expected (aggregate)")
+	evdir := flag.String("evidence-dir", "", "where to write the evidence file (default <verif>/evidence)")
 	list := flag.Bool("list", false, "list properties")
 	verbose := flag.Bool("v", false, "verbose failures")
 	flag.Parse()
@@ -59,7 +60,7 @@ func main() {
 	seed, _ := strconv.ParseInt(os.Getenv("VERIF_SEED"), 10, 64)
 	if *agg {
 		o := core.AggOpts{VerifDir: *verif, RunDir: *rundir, Prop: *prop, Tier: *tier, Seed: seed, Level: def.Level, Rule: def.Rule,
-			Assume: def.Assume, WallS: *wall, Record: *record, RecordRe: *recordRe, NConfigs: *nconfigs}
+			Assume: def.Assume, WallS: *wall, Record: *record, RecordRe: *recordRe, NConfigs: *nconfigs, EvidenceDir: *evdir}
 		if *extra != "" {
 			if b, err := os.ReadFile(*extra); err == nil {
 				json.Unmarshal(b, &o.ExtraCov)
